@@ -496,3 +496,64 @@ func TrailingLengthCases(fx []Fixture, maxPerStart int) []Case {
 	}
 	return out
 }
+
+// HeaderEndCases enumerates, for every fixture and every layer of it, the packet cut right behind that layer's header
+// (the layer has an empty payload and its last octets are the last octets of the data) and, on top of that, each of
+// the last four octets of the header set to 0x00, 0x01 and 0xff in turn: option lists, padding and length octets
+// that sit at the very end of the data.  Starts at the fixture's first layer and at the layer itself.
+func HeaderEndCases(fx []Fixture) []Case {
+	var out []Case
+	seen := map[string]bool{}
+	add := func(name string, d []byte, first gopacket.LayerType) {
+		key := first.String() + string(d)
+		if seen[key] || len(d) == 0 || len(d) > 2000 {
+			return
+		}
+		seen[key] = true
+		out = append(out, Case{name, d[:len(d):len(d)], first})
+	}
+	for _, f := range fx {
+		data := make([]byte, len(f.Data))
+		copy(data, f.Data)
+		var p gopacket.Packet
+		func() {
+			defer func() { recover() }()
+			p = gopacket.NewPacket(data, f.First, gopacket.DecodeOptions{NoCopy: true, DecodeStreamsAsDatagrams: true})
+			p.Layers()
+		}()
+		if p == nil {
+			continue
+		}
+		for j, l := range p.Layers() {
+			c := l.LayerContents()
+			if len(c) == 0 || cap(c) > cap(data) || l.LayerType() == gopacket.LayerTypeDecodeFailure || l.LayerType() == gopacket.LayerTypePayload {
+				continue
+			}
+			off := cap(data) - cap(c)
+			if off < 0 || off+len(c) > len(data) {
+				continue
+			}
+			end := off + len(c)
+			for _, start := range []struct {
+				at    int
+				first gopacket.LayerType
+				tag   string
+			}{{0, f.First, ""}, {off, l.LayerType(), "@layer" + strconv.Itoa(j)}} {
+				base := append([]byte(nil), data[start.at:end]...)
+				name := f.Name + start.tag + "~hdrend(" + l.LayerType().String() + ")"
+				add(name, base, start.first)
+				for k := 1; k <= 4 && k <= len(c); k++ {
+					for _, v := range []byte{0x00, 0x01, 0xff} {
+						if base[len(base)-k] == v {
+							continue
+						}
+						d := append([]byte(nil), base...)
+						d[len(d)-k] = v
+						add(name+"-"+strconv.Itoa(k)+"="+strconv.Itoa(int(v)), d, start.first)
+					}
+				}
+			}
+		}
+	}
+	return out
+}
